@@ -13,16 +13,17 @@
      - [encode_body], [encode_length], [encode]   per defining function, struct.pack as
                          little-endian byte lists with struct.error on overflow
      - [enc_obj]         Pickled._encode_python_obj as written; [dumps_cops] = b"".join(encode)
-   REPAIRED behaviour (notes/fix_int_validate.patch): Int.validate and ConstantInt.validate accept
-   only non-bool integers (the pinned tree's Int.validate is `int(obj)`: defect D7, handled as a
-   known finding by harness/c15.py until the patch is applied).  BinFloat's encoder is whatever
-   the table says the live class has (the patch adds struct.pack(">d")).
+   The encoders are those of the tree with D7 and D13 repaired: Int/ConstantInt.validate accept only
+   non-bool integers; STRING = repr() of ASCII text + newline; SHORT_BINSTRING/BINSTRING = the Latin-1
+   bytes; LONG1/LONG4 = length-prefixed pickle.encode_long; UNICODE = pickle.py's protocol-0
+   escaping + raw-unicode-escape of the decoded text; text is UTF-8 with surrogatepass.
 
    Reader side (CPython 3.12): [read_arg] = the pickletools readers with argument CONTENT,
    [genops1] = one pickletools.genops token, [vm_step] / [vm_run] = the stock unpickler on the
    opcodes the encoders above can emit (constants, MARK, LIST, DICT, EMPTY_DICT, EMPTY_LIST).
-   Text is carried as its UTF-8 bytes; the readers do not validate UTF-8 (a superset is accepted)
-   and decline (XUnmodelled) backslash escapes in STRING / GLOBAL lines.
+   Text is carried as its (surrogatepass) UTF-8 bytes; the length-prefixed readers do not validate
+   UTF-8 (a superset is accepted); STRING / GLOBAL lines are escape-decoded for the escapes repr()
+   produces and declined (XUnmodelled) for the others.
 
    Executable definitions only -- the proofs are in proofs/ConstProofs.v. *)
 From Coq Require Import List String Ascii ZArith NArith Bool Arith.
@@ -139,25 +140,115 @@ Definition class_argless (c : cclass) : bool :=
 (* ---------- text helpers ---------- *)
 Definition hexd (n : N) : byte := byte_of_N (if (n <? 10)%N then 48 + n else 87 + n)%N.
 
-(* one byte of fickle.raw_unicode_escape's loop, then str.encode("utf-8") of what it appended *)
-Definition raw_escape_byte (b : byte) : list byte :=
+(* ---- UTF-8 (str.decode("utf-8", "surrogatepass")): one code point ---- *)
+Definition cont_bits (b : byte) : option N :=
   let n := Byte.to_N b in
-  if ((32 <=? n) && (n <=? 128))%N then
-    (if (n =? 128)%N then [xc2; x80] else [b])
-  else if (n =? 10)%N then [x5c; x6e]              (* backslash n *)
-  else if (n =? 13)%N then [x5c; x72]              (* backslash r *)
-  else if (n =? 92)%N then [x5c; x5c]              (* dead: 92 is inside 32..128 *)
-  else [x5c; x75; x30; x30; hexd (n / 16); hexd (n mod 16)].   (* \u00xx *)
+  if ((128 <=? n) && (n <? 192))%N then Some (n - 128)%N else None.
 
-Definition raw_unicode_escape (s : list byte) : list byte :=
-  flat_map raw_escape_byte s ++ [nl].
+(* (code point, rest); overlong forms and values above U+10FFFF are rejected, surrogates pass *)
+Definition utf8_next (s : list byte) : option (N * list byte) :=
+  match s with
+  | [] => None
+  | b :: r =>
+      let n := Byte.to_N b in
+      if (n <? 128)%N then Some (n, r)
+      else if (n <? 192)%N then None
+      else if (n <? 224)%N then
+        match r with
+        | c1 :: r1 =>
+            match cont_bits c1 with
+            | Some x => let cp := ((n - 192) * 64 + x)%N in
+                        if (cp <? 128)%N then None else Some (cp, r1)
+            | None => None
+            end
+        | _ => None
+        end
+      else if (n <? 240)%N then
+        match r with
+        | c1 :: c2 :: r2 =>
+            match cont_bits c1, cont_bits c2 with
+            | Some x, Some y => let cp := ((n - 224) * 4096 + x * 64 + y)%N in
+                                if (cp <? 2048)%N then None else Some (cp, r2)
+            | _, _ => None
+            end
+        | _ => None
+        end
+      else if (n <? 248)%N then
+        match r with
+        | c1 :: c2 :: c3 :: r3 =>
+            match cont_bits c1, cont_bits c2, cont_bits c3 with
+            | Some x, Some y, Some z =>
+                let cp := ((n - 240) * 262144 + x * 4096 + y * 64 + z)%N in
+                if ((cp <? 65536) || (1114111 <? cp))%N then None else Some (cp, r3)
+            | _, _, _ => None
+            end
+        | _ => None
+        end
+      else None
+  end.
 
-(* repr(str) for the texts the model covers: printable ASCII without ' and backslash *)
-Definition simple_byte (b : byte) : bool :=
+Fixpoint utf8_decode_f (fuel : nat) (s : list byte) : option (list N) :=
+  match s with
+  | [] => Some []
+  | _ =>
+      match fuel with
+      | O => None
+      | S f => match utf8_next s with
+               | Some (cp, r) => match utf8_decode_f f r with
+                                 | Some t => Some (cp :: t)
+                                 | None => None
+                                 end
+               | None => None
+               end
+      end
+  end.
+Definition utf8_decode (s : list byte) : option (list N) := utf8_decode_f (List.length s) s.
+
+(* str.encode("latin-1") of the text whose UTF-8 is s *)
+Definition latin1_of_utf8 (s : list byte) : option (list byte) :=
+  match utf8_decode s with
+  | Some cps => if forallb (fun n => (n <? 256)%N) cps then Some (map byte_of_N cps) else None
+  | None => None
+  end.
+
+(* ---- fickle.raw_unicode_escape (repaired): pickle.py's save_str for protocol 0 ---- *)
+Definition hex4 (n : N) : list byte :=
+  [hexd ((n / 4096) mod 16); hexd ((n / 256) mod 16); hexd ((n / 16) mod 16); hexd (n mod 16)]%N.
+
+Definition esc_cp (n : N) : list byte :=
+  if ((n =? 92) || (n =? 0) || (n =? 10) || (n =? 13) || (n =? 26))%N then x5c :: x75 :: hex4 n
+  else if (n <? 256)%N then [byte_of_N n]
+  else if (n <? 65536)%N then x5c :: x75 :: hex4 n
+  else x5c :: x55 :: hex4 (n / 65536) ++ hex4 (n mod 65536).
+
+Definition raw_unicode_escape (cps : list N) : list byte := flat_map esc_cp cps ++ [nl].
+
+(* ---- repr(str) of ASCII text ---- *)
+Definition repr_byte (q b : byte) : list byte :=
   let n := Byte.to_N b in
-  ((32 <=? n) && (n <=? 126) && negb (n =? 39) && negb (n =? 92))%N.
-Definition simple_text (s : list byte) : bool := forallb simple_byte s.
-Definition repr_simple (s : list byte) : list byte := [x27] ++ s ++ [x27].
+  if Byte.eqb b q || Byte.eqb b x5c then [x5c; b]
+  else if (n =? 9)%N then [x5c; x74]
+  else if (n =? 10)%N then [x5c; x6e]
+  else if (n =? 13)%N then [x5c; x72]
+  else if ((n <? 32) || (n =? 127))%N then [x5c; x78; hexd (n / 16); hexd (n mod 16)]
+  else [b].
+
+Definition repr_quote (s : list byte) : byte :=
+  if existsb (Byte.eqb x27) s && negb (existsb (Byte.eqb x22) s) then x22 else x27.
+
+Definition py_repr (s : list byte) : list byte :=
+  let q := repr_quote s in q :: flat_map (repr_byte q) s ++ [q].
+
+Definition all_ascii (s : list byte) : bool := forallb (fun b => (Byte.to_N b <? 128)%N) s.
+
+(* ---- fickle.encode_long: (bit_length >> 3) + 1 bytes of little-endian two's complement ---- *)
+Definition bit_length (z : Z) : Z := if z =? 0 then 0 else Z.log2 (Z.abs z) + 1.
+
+Definition long_nbytes (z : Z) : Z := bit_length z / 8 + 1.
+
+Definition encode_long (z : Z) : list byte :=
+  if z =? 0 then []
+  else let n := long_nbytes z in le_bytes (Z.to_nat n) (Z.to_N (z mod 2 ^ (8 * n))).
 
 (* str.split(" ") *)
 Fixpoint split_sp (s : list byte) (cur : list byte) : list (list byte) :=
@@ -210,16 +301,30 @@ Definition encode_body (c : cclass) (arg : pv) : cres (list byte) :=
     end
   else if (q =? "Unicode.encode_body")%string then
     match arg with
-    | PBytes s => COk (raw_unicode_escape s)
-    | PStr [] => COk [nl]
-    | PStr _ => CErr XType
-    | _ => CErr XUnmodelled
+    | PBytes s | PStr s =>
+        match utf8_decode s with
+        | Some cps => COk (raw_unicode_escape cps)
+        | None => CErr XValue                    (* UnicodeDecodeError *)
+        end
+    | _ => CErr XAttr
     end
-  else if (q =? "String.encode_body")%string || (q =? "ShortBinString.encode_body")%string
-          || (q =? "BinString.encode_body")%string then
+  else if (q =? "String.encode_body")%string then
     match arg with
-    | PStr s => if simple_text s then COk (repr_simple s) else CErr XUnmodelled
-    | _ => CErr XUnmodelled
+    | PStr s => if all_ascii s then COk (py_repr s ++ [nl]) else CErr XValue   (* UnicodeEncodeError *)
+    | _ => CErr XAttr
+    end
+  else if (q =? "ShortBinString.encode_body")%string || (q =? "BinString.encode_body")%string then
+    match arg with
+    | PStr s => match latin1_of_utf8 s with Some l => COk l | None => CErr XValue end
+    | _ => CErr XAttr
+    end
+  else if (q =? "Long1.encode_body")%string || (q =? "Long4.encode_body")%string then
+    let w := if (q =? "Long1.encode_body")%string then 1 else 4 in
+    let sg := if (q =? "Long1.encode_body")%string then false else true in
+    match arg with
+    | PInt z => let d := encode_long z in doc l <- pack_int w sg (blen d); COk (l ++ d)
+    | PBool b => let d := encode_long (if b then 1 else 0) in doc l <- pack_int w sg (blen d); COk (l ++ d)
+    | _ => CErr XAttr                 (* no bit_length() *)
     end
   else if (q =? "ShortBinBytes.encode_body")%string then
     match arg with
@@ -475,7 +580,19 @@ Fixpoint raw_unescape (fuel : nat) (s : list byte) (odd : bool) : cres (list byt
                         end
                     | _ => CErr XUnpickling
                     end
-                  else if Byte.eqb c x55 then CErr XUnmodelled
+                  else if Byte.eqb c x55 then
+                    match r2 with
+                    | h1 :: h2 :: h3 :: h4 :: h5 :: h6 :: h7 :: h8 :: r3 =>
+                        match hexv h1, hexv h2, hexv h3, hexv h4, hexv h5, hexv h6, hexv h7, hexv h8 with
+                        | Some a1, Some a2, Some a3, Some a4, Some a5, Some a6, Some a7, Some a8 =>
+                            let cp := ((a1 * 4096 + a2 * 256 + a3 * 16 + a4) * 65536
+                                       + (a5 * 4096 + a6 * 256 + a7 * 16 + a8))%N in
+                            if (1114111 <? cp)%N then CErr XUnpickling
+                            else doc t <- raw_unescape f r3 false; COk (utf8_cp cp ++ t)
+                        | _, _, _, _, _, _, _, _ => CErr XUnpickling
+                        end
+                    | _ => CErr XUnpickling
+                    end
                   else doc t <- raw_unescape f r true; COk (x5c :: t)
               | [] => COk [x5c]
               end
@@ -483,13 +600,38 @@ Fixpoint raw_unescape (fuel : nat) (s : list byte) (odd : bool) : cres (list byt
       end
   end.
 
-Definition all_ascii (s : list byte) : bool := forallb (fun b => (Byte.to_N b <? 128)%N) s.
-Definition has_backslash (s : list byte) : bool := existsb (fun b => Byte.eqb b x5c) s.
+(* codecs.escape_decode on the escapes repr() produces (others are declined) *)
+Fixpoint unescape (s : list byte) : cres (list byte) :=
+  match s with
+  | [] => COk []
+  | b :: r =>
+      if Byte.eqb b x5c then
+        match r with
+        | [] => CErr XUnpickling                         (* "Trailing \ in string" *)
+        | c :: r2 =>
+            if Byte.eqb c x5c || Byte.eqb c x27 || Byte.eqb c x22
+            then doc t <- unescape r2; COk (c :: t)
+            else if Byte.eqb c x6e then doc t <- unescape r2; COk (x0a :: t)
+            else if Byte.eqb c x72 then doc t <- unescape r2; COk (x0d :: t)
+            else if Byte.eqb c x74 then doc t <- unescape r2; COk (x09 :: t)
+            else if Byte.eqb c x78 then
+              match r2 with
+              | h1 :: h2 :: r3 =>
+                  match hexv h1, hexv h2 with
+                  | Some a, Some d => doc t <- unescape r3; COk (byte_of_N (a * 16 + d) :: t)
+                  | _, _ => CErr XUnpickling
+                  end
+              | _ => CErr XUnpickling
+              end
+            else CErr XUnmodelled
+        end
+      else doc t <- unescape r; COk (b :: t)
+  end.
 
 (* codecs.escape_decode(data)[0].decode("ascii") *)
 Definition escape_ascii (s : list byte) : cres garg :=
-  if has_backslash s then CErr XUnmodelled
-  else if all_ascii s then COk (GText s) else CErr XUnpickling.
+  doc u <- unescape s;
+  if all_ascii u then COk (GText u) else CErr XUnpickling.
 
 (* w-byte little-endian count, then that many bytes *)
 Definition read_counted (w : nat) (signed : bool) (bs : list byte) : cres (list byte * list byte) :=
